@@ -72,6 +72,22 @@ def parent_expr(kind: str, w: int):
     elif kind == "PortRef-unconnected":
         insts.append({"name": "u", "kind": "single", "of": ["leaf", refsem.wleaf(w)], "tag": 7, "conns": {}})
         e = ["pref", "u", "p"]
+    elif kind == "PortRef-array-each":
+        # a reference into an instance array stands for the port's whole connection: n chunks, element 0 lowest
+        if w < 2:
+            return parent_expr("PortRef", w)
+        n, k = (2, w // 2) if w % 2 == 0 else (w, 1)
+        sigs.append(["par", w])
+        insts.append({"name": "u", "kind": "array", "n": n, "of": ["leaf", refsem.wleaf(k)], "tag": 7, "conns": {"p": ["sig", "par"]}})
+        e = ["pref", "u", "p"]
+    elif kind == "PortRef-array-unconnected":
+        # ... and an unconnected array port that is referenced gets one signal of the port's width, shared by the elements
+        insts.append({"name": "u", "kind": "array", "n": 2, "of": ["leaf", refsem.wleaf(w)], "tag": 7, "conns": {}})
+        e = ["pref", "u", "p"]
+    elif kind == "PortRef-array-broadcast":
+        sigs.append(["par", w])
+        insts.append({"name": "u", "kind": "array", "n": 2, "of": ["leaf", refsem.wleaf(w)], "tag": 7, "conns": {"p": ["sig", "par"]}})
+        e = ["pref", "u", "p"]
     elif kind == "BundleRef":
         bdefs[f"BW{w}"] = {"sigs": [["m", w, "sig"], ["k", 1, "sig"]], "subs": [], "roles": None}
         buns.append(["bb", f"BW{w}"])
@@ -128,18 +144,20 @@ def make_design(kind: str, w: int, chain, nsel: int, arrays: bool = True):
     return {"bundles": bdefs, "modules": [top], "top": "X", "lenient_bounds": True}
 
 
-def judge_case(rec, kind: str, w: int, chain, sample=False):
+def judge_case(rec, kind: str, w: int, chain, sample=False, peek=True):
+    """`peek`: ask the expression for its width before elaboration (the outcome must not depend on having looked)."""
     import hdl21 as h
 
     sel, cls = py_select(w, chain)
-    key = (kind, w, tuple(tuple(i) if isinstance(i, list) else i for i in chain))
+    key = (kind, w, tuple(tuple(i) if isinstance(i, list) else i for i in chain), peek)
     trivial = all((not isinstance(i, int)) and i[0] is None and i[1] is None and i[2] in (None, 1) for i in chain)
     rec.case(key=str(key), nontrivial=not trivial,
              sample={"parent": kind, "width": w, "index_chain": chain, "python_selects": sel, "class": cls} if sample else None)
     rec.hist("cases_by_parent", kind)
     rec.hist("cases_by_class", cls)
-    case = {"kind": "index", "parent": kind, "w": w, "chain": chain}
-    desc = f"{kind}(w={w})" + "".join(f"[{i}]" if isinstance(i, int) else "[" + ":".join("" if x is None else str(x) for x in i) + "]" for i in chain)
+    case = {"kind": "index", "parent": kind, "w": w, "chain": chain, "peek": peek}
+    rec.count("driver.width-asked-first" if peek else "driver.width-not-asked")
+    desc = ("" if peek else "(width not asked before elaboration) ") + f"{kind}(w={w})" + "".join(f"[{i}]" if isinstance(i, int) else "[" + ":".join("" if x is None else str(x) for x in i) + "]" for i in chain)
     nsel = len(sel) if sel else 1
     design = make_design(kind, w, chain, nsel)
     stage = "create"
@@ -152,7 +170,7 @@ def judge_case(rec, kind: str, w: int, chain, sample=False):
         mb.connect_all()  # creation of the Slice objects
         conn = mb.insts["d"].conns["p"]
         stage = "width"
-        got_w = conn.width if hasattr(conn, "width") else None
+        got_w = conn.width if peek and hasattr(conn, "width") else None
         if got_w is not None and sel is not None and got_w != len(sel):
             rec.violation("reported-width-wrong", f"{desc}.width == {got_w}, Python selects {len(sel)} bit(s)", case=case,
                           parent=kind)
@@ -214,7 +232,8 @@ def all_indices(W: int, w: int):
         yield [a, b, s]
 
 
-KINDS = ["Signal", "Slice", "Concat2", "Concat3", "ConcatNestedL", "ConcatNestedR", "PortRef", "PortRef-unconnected", "BundleRef"]
+KINDS = ["Signal", "Slice", "Concat2", "Concat3", "ConcatNestedL", "ConcatNestedR", "PortRef", "PortRef-unconnected", "BundleRef",
+         "PortRef-array-each", "PortRef-array-unconnected", "PortRef-array-broadcast"]
 
 
 def rand_index(rng, W, n):
@@ -267,6 +286,8 @@ def run(ctx, rec):
         cases = cases[ctx.shard:: ctx.nshards]
     for k, (kind, w, chain) in enumerate(cases):
         judge_case(rec, kind, w, chain, sample=(k % 1500 == 7))
+        if k % 5 == 0 or (kind.startswith("PortRef") and k % 2 == 0):
+            judge_case(rec, kind, w, chain, peek=False)
     if not ctx.quick and ctx.shard == 0:
         from .. import suite
 
@@ -282,7 +303,7 @@ def shards(ctx):
 def replay(ctx, rec, case):
     slicemon.attach(rec)
     if case.get("kind") == "index":
-        judge_case(rec, case["parent"], case["w"], case["chain"], sample=True)
+        judge_case(rec, case["parent"], case["w"], case["chain"], sample=True, peek=case.get("peek", True))
     elif case.get("kind") == "width":
         judge_case(rec, case.get("parent", "Signal"), case["pw"], [case["index"]], sample=True)
     else:
